@@ -1,4 +1,5 @@
 import Driver.Codec
+import Driver.Solve
 open Ezpz Ezpz.Driver
 
 /-- Discrete signature and float payload of one kernel evaluation (for the stability probe). -/
@@ -58,6 +59,7 @@ def runKernel (ts : Toks) : String :=
 def step (line : String) : String :=
   match line.trimAscii.toString.splitOn " " with
   | "K" :: ts => runKernel ts
+  | "S" :: ts => runSolve ts
   | _ => "bad-op"
 
 partial def loop (h : IO.FS.Stream) (out : IO.FS.Stream) : IO Unit := do
